@@ -1,6 +1,6 @@
 (* Extraction of the C07 models: ExtrOcamlBasic only; Z, positive, nat stay Coq's datatypes. *)
 From Coq Require Import ZArith List.
-From PV Require Import Base.U64 E3.E3_Run C07.C07_Model C07.C07_SPSC_Model C07.C07_MPMC_Model C07.C07_Batch_Model.
+From PV Require Import Base.U64 E3.E3_Run C07.C07_Model C07.C07_SPSC_Model C07.C07_MPMC_Model C07.C07_Batch_Model C07.C07_Chan_Model.
 Require Extraction.
 Require Import ExtrOcamlBasic.
-Extraction "c07_model.ml" cfg_of spsc_run mpmc_run batch_run.
+Extraction "c07_model.ml" cfg_of spsc_run mpmc_run batch_run chan_run.
